@@ -19,7 +19,7 @@ class C02(C01):
             "their float neighbours; bitwise vs the model in both precisions, and vs the exact rational derivative of the tensor-product sum with the measured rounding bound; "
             "non-trivial = some coordinate not a plain interior point; distinct by (knots, orders, coefficients, coordinate bits, masks, k-vectors)")
     def volume(self, tier):
-        return 100 if tier == "quick" else 12000
+        return 100 if tier == "quick" else 3000
     def keyfilter(self, k):
         return not k.startswith("sc.") and not k.startswith("var.")
     def masks_for(self, t, rng):
